@@ -56,8 +56,9 @@ func c05Judge(c *mon.Ctx, aText, bText string, o OptSet, class string) {
 	c.Feature("opt:" + o.Name)
 	a, b := ref.MustJSON(aText), ref.MustJSON(bText)
 	want := oracleEq(a, b, o)
-	eq := ReadJ(aText).Equals(ReadJ(bText), o.O()...)
-	d := ReadJ(aText).Diff(ReadJ(bText), o.O()...)
+	mkA, mkB := operand(c, aText, "a", 0.12), operand(c, bText, "b", 0.12)
+	eq := mkA().Equals(mkB(), o.O()...)
+	d := mkA().Diff(mkB(), o.O()...)
 	empty := len(d) == 0
 	if aText != bText {
 		c.Nontrivial(joinKey(aText, bText, o.Name))
@@ -158,7 +159,7 @@ func init() {
 			"verdict compares len(Diff)==0, Equals and an independent oracle (ref.Canon / ref.EqPrec) pairwise; CLI: exit status of the three binaries " +
 			"on a sample of the same pairs; non-trivial = operands differ textually; distinct = distinct (a, b, options)",
 		Floors: map[string]int{"oracle_equal": 5000, "oracle_unequal": 5000, "equal_but_textually_different": 2000, "cli_runs": 500,
-			"cli_status_0": 100, "cli_status_1": 100},
+			"cli_status_0": 100, "cli_status_1": 100, "a_is_patch_result": 3000, "b_is_patch_result": 3000},
 		Assumptions: []string{
 			"oracle: ref.Canon under the reading of the option set; ref.EqPrec for Precision",
 			"SetKeys inputs satisfy the key precondition; MERGE inputs include nulls in the library leg (the biconditional is not restricted to null-free documents), the CLI leg keeps them null-free",
